@@ -56,6 +56,8 @@ def decorations():
     D.append(("modify", "p", "wall", None))
     D.append(("modify", "q", "cyclic", ["neighbourPatch p", "transform none"]))
     D.append(("modify", "unused", "empty", None))
+    D.append(("modify", "q", "wall", []))  # re-declaration with explicitly empty settings
+    D.append(("modify", "p", "patch", ["inGroups (a)"]))
     D.append(("setting", "scale", 0.001))
     D.append(("setting", "mergeType", "points"))
     return D
